@@ -7,7 +7,7 @@
    Table function -> theorem -> oracle hypotheses -> clause: docs/audit/C02.md, section GoLite.  *)
 From Coq Require Import List Bool String Ascii NArith ZArith.
 From NV Require Import Base Regex Generated C02_Levels VerifyCore C02_Model C20_Semver C02_Versions.
-From NV Require Import GoLib C02_Gen C02_GenProofs.
+From NV Require Import GoLib C02_Gen C02_GenProofs C02_GenSig.
 Import ListNotations.
 Local Open Scope string_scope.
 Local Open Scope list_scope.
@@ -285,3 +285,84 @@ Theorem C02_gen_too_old_rejects : forall gcmp, compare_agrees gcmp -> compare_ra
   = mk_obs EInconclusive [mk_res TIntegrity Enforce false] false [n] None.
 Proof. exact gen_too_old_rejects. Qed.
 Print Assumptions C02_gen_too_old_rejects.
+
+
+(* ====================================================================== *)
+(* ( *verifier).processSignature ITSELF                                     *)
+(* ====================================================================== *)
+
+(* The GoLite translation of the whole function (theories/C02_Gen.v,
+   gen_verifier_verifier_processSignature, wrapped as [run O K]) is the staged model
+   VerifyCore.process_signature = verify_core, the object of every C02 theorem.
+
+   [O : oracles]  every call that leaves the function: verifyIntegrity, loadX509TrustStores,
+                  verifyAuthenticity, verifyX509TrustedIdentities, verifyExpiry, verifyAuthenticTimestamp,
+                  the revocation validator + AuthenticSigningTime (through the translated verifyRevocation),
+                  pluginManager.Get, the plugin's get-plugin-metadata and verify-signature (through the
+                  translated executePlugin), x/mod/semver.Compare, and processPluginResponse (refused by
+                  the translator: it writes through a pointer it finds in outcome.VerificationResults).
+   [K : call O]   the arguments (verifier, blob, policy name, identities, stores, config, outcome).
+   [F : facts O]  what the oracles answered and the five native facts.
+   [Describes O K F] = each oracle answers like the model of it (C02_GenSig.Describes, 16 clauses);
+   [scenario_of O K F] = the VerifyCore scenario read off the envelope's extended attributes (header
+   states, attributes handed to the plugin, integer-labelled critical attribute), the manager's and the
+   plugin's answers (installed / metadata / version facts computed by the code's own IsValid and
+   isRequiredVerificationPluginVer / capabilities) and the native facts.
+   Conclusion [matches_model]: the function returns (no nil dereference), the results it appended to
+   outcome.VerificationResults are the model's o_results in order (type, action as the code reads it,
+   failed = Error is not nil - including the authenticity result whose Error is overwritten by the
+   identity check AFTER it was appended), the error has the model's class (nil / the Error of the
+   reported result of that type / ErrorVerificationInconclusive / another error), EnvelopeContent is set
+   and the level untouched. *)
+Theorem C02_gen_processSignature_is_model : forall (O : oracles) (K : call O) (F : facts O),
+  Describes O K F ->
+  matches_model O K F (run O K) (obs2 (process_signature (level_of_call O F) (scenario_of O K F))).
+Proof. exact gen_processSignature_is_model. Qed.
+Print Assumptions C02_gen_processSignature_is_model.
+
+Theorem C02_gen_processSignature_returns : forall (O : oracles) (K : call O) (F : facts O),
+  Describes O K F ->
+  let ob := verify_core (level_of_call O F) (scenario_of O K F) in
+  exists out e news,
+    run O K = Some (out, e)
+    /\ VerificationOutcome_VerificationResults (or_C O) out
+       = VerificationOutcome_VerificationResults (or_C O) (cl_outcome K) ++ news
+    /\ Forall2 res_is news (o_results ob)
+    /\ err_rel e (o_err ob) news
+    /\ VerificationOutcome_EnvelopeContent (or_C O) out = ft_envp F
+    /\ VerificationOutcome_VerificationLevel (or_C O) out = VerificationOutcome_VerificationLevel (or_C O) (cl_outcome K)
+    /\ (e = None <-> accepted ob = true).
+Proof. exact gen_processSignature_returns. Qed.
+Print Assumptions C02_gen_processSignature_returns.
+
+(* transported C02_exact_all: THE acceptance rule of the property, on the code's own function *)
+Theorem C02_gen_processSignature_rejects_iff : forall (O : oracles) (K : call O) (F : facts O),
+  Describes O K F ->
+  let l := level_of_call O F in let sc := scenario_of O K F in
+  exists out e, run O K = Some (out, e)
+    /\ (e <> None <->
+        s_integrity_ok sc = false \/ enforced_failure l sc = true \/ plugin_or_attribute_problem l sc = true).
+Proof. exact gen_processSignature_rejects_iff. Qed.
+Print Assumptions C02_gen_processSignature_rejects_iff.
+
+(* transported C02_monotone_all *)
+Theorem C02_gen_processSignature_monotone : forall (O : oracles) (K1 K2 : call O) (F1 F2 : facts O),
+  Describes O K1 F1 -> Describes O K2 F2 ->
+  scenario_of O K1 F1 = scenario_of O K2 F2 ->
+  level_le (level_of_call O F1) (level_of_call O F2) = true ->
+  forall out1 out2 e2, run O K1 = Some (out1, None) -> run O K2 = Some (out2, e2) -> e2 = None.
+Proof. exact gen_processSignature_monotone. Qed.
+Print Assumptions C02_gen_processSignature_monotone.
+
+(* non-vacuity: the hypotheses [Describes] are satisfiable, and on that instance the generated function
+   can also simply be run: an expired signature under the permissive level with no revocation
+   validator configured is accepted with the two failures reported, exactly as the model says *)
+Theorem C02_gen_processSignature_example :
+  Describes ex_O ex_K ex_F
+  /\ (exists out, run ex_O ex_K = Some (out, None)
+                  /\ List.length (VerificationOutcome_VerificationResults unit out) = 5%nat)
+  /\ verify_core (level_of_call ex_O ex_F) (scenario_of ex_O ex_K ex_F)
+     = mk_obs ENone [mk_res TIntegrity Enforce false; mk_res TAuth Enforce false; mk_res TExpiry Log true;
+                     mk_res TTimestamp Log false; mk_res TRev Log true] true [] None.
+Proof. exact gen_processSignature_example. Qed.
+Print Assumptions C02_gen_processSignature_example.
